@@ -4,7 +4,7 @@ from __future__ import annotations
 import ast
 
 from ..loader import AnalysisError, dotted, norm, walk_no_defs
-from ..minieval import MiniEval, Obj
+from ..minieval import MiniEval, Obj, mro_methods
 from ..paths import Executor, Semantics
 from ..report import RuleReport
 from ..rules.common import rule_chain
@@ -123,6 +123,7 @@ def r1_seed_loop(a, tier):
 
     class Res(Obj):
         pass
+    ev.globals['RuleResult'] = Res
 
     def mk(node):
         r = Res(node=node, newpos=3)
@@ -131,6 +132,7 @@ def r1_seed_loop(a, tier):
     e1, e2 = Elem(1), Elem(2)
     for what, node, want in (('open list', [e1, e2], 'C[e1,e2]'), ('scalar', e1, 'e1'), ('closed list', CL([e1]), 'C[e1]')):
         me = Obj(_results={})
+        object.__setattr__(me, '_methods', mro_methods(a, ENGINE, skip=('save_result',)))
         res = mk(node)
 
         def methods(recv, name, args, kwargs, res=res):
